@@ -99,10 +99,8 @@ Definition key (g : group) : Z :=
   end.
 
 (* ------------------------------------------------------------------ configuration *)
-(* p_conv is int32(rp.TTL.Seconds()).  Go leaves the conversion implementation-defined when the seconds do
-   not fit int32, so the model takes the converted value as part of the input: the theorems hold for every
-   value of it; the correspondence (model/RotateObs.v) checks it against the IEEE computation whenever that fits int32. *)
-Record policy := { p_ns : Z; p_disk : string; p_conv : Z }.
+(* one ttl_policy tier: the timeout as a time.Duration (int64 nanoseconds) and the disk to move to ("" = none) *)
+Record policy := { p_ns : Z; p_disk : string }.
 Record config := {
   cluster : string; distributed : bool; days : list policy; drop_days : Z; storage_policy : string }.
 
@@ -111,10 +109,28 @@ Definition zs (z : Z) : string := NilZero.string_of_int (Z.to_int z).   (* %d *)
 (* ------------------------------------------------------------------ TTL expression *)
 Record tier := { tr_secs : Z; tr_disk : string }.
 
-(* intsevalSec := int32(rp.TTL.Seconds()); if intsevalSec < int32(minTTL.Seconds()) { intsevalSec = int32(minTTL.Seconds()) } *)
-Definition clamp (minv : Z) (v : Z) : Z := if v <? minv then minv else v.
+(* intsevalSec := int64(rp.TTL / time.Second)                     -- Go's integer division truncates toward zero
+   if intsevalSec < int64(minTTL/time.Second) { intsevalSec = int64(minTTL / time.Second) }
+   if intsevalSec > math.MaxInt32 { intsevalSec = math.MaxInt32 }
+   (before /repo fix "tier timeouts are whole seconds by integer arithmetic" the value was int32(rp.TTL.Seconds()), whose
+   result for a timeout beyond 68 years is implementation-defined; amd64 gave -2^31, which the lower clamp turned into
+   the minimum: refuted form kept as old_tier_secs / RotateProofs.old_conversion_moves_early) *)
+Definition second_ns : Z := 1000000000.
+Definition max_int32 : Z := 2147483647.
+Definition whole_seconds (ns : Z) : Z := Z.quot ns second_ns.
+Definition clamp (minv : Z) (v : Z) : Z :=
+  let v1 := if v <? minv then minv else v in
+  if max_int32 <? v1 then max_int32 else v1.
+Definition tier_secs (minv ns : Z) : Z := clamp minv (whole_seconds ns).
 Definition tiers_of (minv : Z) (ds : list policy) : list tier :=
-  map (fun p => {| tr_secs := clamp minv (p_conv p); tr_disk := p_disk p |}) ds.
+  map (fun p => {| tr_secs := tier_secs minv (p_ns p); tr_disk := p_disk p |}) ds.
+
+(* the code before the fix, on amd64 (CVTTSD2SL yields the "integer indefinite" value -2^31 when the truncated
+   float does not fit int32); the float rounding of Duration.Seconds() is left out: whole seconds only *)
+Definition old_tier_secs (minv ns : Z) : Z :=
+  let s := whole_seconds ns in
+  let conv := if (s <? -2147483648) || (max_int32 <? s) then -2147483648 else s in
+  if conv <? minv then minv else conv.
 
 Definition tier_text (c : col) (t : tier) : string :=
   col_text c ++ " + toIntervalSecond(" ++ zs (tr_secs t) ++ ")" ++
